@@ -1215,21 +1215,32 @@ class TransactionEvaluator:
         if func_name == 'any':
             if len(node.args) != 1:
                 raise ExpressionError("any() requires exactly 1 argument")
-            return any(self.evaluate(node.args[0]))
+            iterable = self.evaluate(node.args[0])
+            try:
+                return any(iterable)
+            finally:
+                self._close_generator(iterable)
 
         if func_name == 'all':
             if len(node.args) != 1:
                 raise ExpressionError("all() requires exactly 1 argument")
-            return all(self.evaluate(node.args[0]))
+            iterable = self.evaluate(node.args[0])
+            try:
+                return all(iterable)
+            finally:
+                self._close_generator(iterable)
 
         if func_name == 'next':
             if len(node.args) < 1 or len(node.args) > 2:
                 raise ExpressionError("next() requires 1 or 2 arguments")
             iterator = self.evaluate(node.args[0])
-            if len(node.args) == 2:
-                default = self.evaluate(node.args[1])
-                return next(iterator, default)
-            return next(iterator)
+            try:
+                if len(node.args) == 2:
+                    default = self.evaluate(node.args[1])
+                    return next(iterator, default)
+                return next(iterator)
+            finally:
+                self._close_generator(iterator)
 
         if func_name == 'min':
             if len(node.args) == 1:
@@ -1259,6 +1270,13 @@ class TransactionEvaluator:
             return self.evaluate(node.body)
         else:
             return self.evaluate(node.orelse)
+
+    @staticmethod
+    def _close_generator(value):
+        """any(), all() and next() stop consuming early: close a generator argument so
+        that its loop variables go out of scope, as they do in Python."""
+        if isinstance(value, types.GeneratorType):
+            value.close()
 
     def _eval_ListComp(self, node: ast.ListComp) -> List[Any]:
         """Evaluate [expr for x in iter if cond].
@@ -1342,15 +1360,18 @@ class TransactionEvaluator:
             old_value = self._scope.get(var_name)
             self._scope[var_name] = item
 
-            conditions_pass = all(self.evaluate(if_clause) for if_clause in comp.ifs)
+            # try/finally: any(), all() and next() stop consuming early and close the
+            # generator; the loop variable must not stay bound after that
+            try:
+                conditions_pass = all(self.evaluate(if_clause) for if_clause in comp.ifs)
 
-            if conditions_pass:
-                yield from self._generator_helper(generators, index + 1, element_expr)
-
-            if old_value is None:
-                self._scope.pop(var_name, None)
-            else:
-                self._scope[var_name] = old_value
+                if conditions_pass:
+                    yield from self._generator_helper(generators, index + 1, element_expr)
+            finally:
+                if old_value is None:
+                    self._scope.pop(var_name, None)
+                else:
+                    self._scope[var_name] = old_value
 
     def _eval_Subscript(self, node: ast.Subscript) -> Any:
         """Evaluate list[index] access."""
